@@ -207,6 +207,13 @@ func extractVfs(root string) (string, map[string]any, error) {
 			strings.Join(before, ", "), strings.Join(beforeCtx, ", "), strings.Join(all, ", ")))
 	}
 	summary["functions"] = len(fns)
+	var ctxEntry []string
+	for _, f := range fns {
+		if f.exported && f.hasCtx {
+			ctxEntry = append(ctxEntry, f.name)
+		}
+	}
+	summary["ctxEntryPoints"] = ctxEntry
 	lean := "import GoUtils.Model.VfsTable\nnamespace GoUtils.Generated.Vfs\nopen GoUtils.VfsTable\ndef ok : Bool := true\ndef methods : List MethodFact := [\n  " +
 		strings.Join(items, ",\n  ") + "]\nend GoUtils.Generated.Vfs\n"
 	return lean, summary, nil
